@@ -11,16 +11,17 @@ O: the projection's consistency check (graph, name<->index maps, _data lists, pa
 """
 import json
 
-from .. import env, tlc, absstate, treeadt, recorder
+from .. import env, tlc, absstate, treeadt, recorder, movetrace
 from ..evidence import Check
 from . import c01, c06
 
 
-def chains(ck, seed, thorough):
+def chains(ck, seed, thorough, corrupt=None):
     import numpy as np
     from .. import gridoracle
 
     n_events = 0
+    recorded = []
     combos = []
     for prop in ("bootstrap", "semi-adapted", "fully-adapted"):
         for outl in (0, 0.2):
@@ -32,7 +33,7 @@ def chains(ck, seed, thorough):
         n = 4 + (ci % 2)
         tab = gridoracle.int_tables(n, 2, 11, seed + ci, lo=1, hi=9)
         data = gridoracle.data_from_tables(tab, outlier_prob=outl)
-        rec = recorder.ChainRecorder()
+        rec = recorder.ChainRecorder(inner_moves=True)
         res, err = recorder.run_chain(data, seed * 1000 + ci, rec=rec, proposal=prop, outlier_prob=outl, subtree_update_prob=sub,
                                       num_iters=(120 if thorough else 40), burnin=2, num_particles=4)
         label = "%s|outl=%s|sub=%s|n=%d" % (prop, outl, sub, n)
@@ -49,10 +50,14 @@ def chains(ck, seed, thorough):
                         ev["sampler"], sorted(absstate.data_ids(ev["out"])), sorted(absstate.data_ids(ev["in"])), label), {"config": label})
             elif ev["ev"] == "append" and "tree_error" in ev:
                 ck.violation("C07|chain|malformed|trace_entry", "trace entry holds a malformed tree: %s [%s]" % (ev["tree_error"], label), {"config": label})
+        recorded.append((label, outl > 0, rec.events))
         ck.nontrivial("chain:" + label)
+    # every recorded step against the move relations (TraceMoves.tla): continuity, candidate sets, block structure
+    rejected = movetrace.check_chains(ck, "C07", "c07_moves", recorded, corrupt=corrupt)
     ck.evaluations += n_events
     ck.traces_validated += len(combos)
     ck.extra["chain_events_checked"] = n_events
+    return rejected
 
 
 def run(corrupt=None):
@@ -122,7 +127,8 @@ def run(corrupt=None):
         ck.model_drift("recorded conditional-SMC swarms are not a behaviour of PGibbsSM (start %s)" % json.dumps(tr["s0"]))
     ck.extra["swarm_traces_recorded"] = total
     # --- seeded end-to-end chains
-    chains(ck, seed, thorough)
+    rejected = chains(ck, seed, thorough, corrupt=corrupt)
+    ck.extra["trace_moves_rejections"] = [list(x) for x in (rejected or [])][:10]
     ck.rule = ("(a) all realised edges of the TreeADT closure on 3 points + in-place walks on 4 points, (b) every output tree of every "
                "RNG path of the five samplers on <= 2-3 points, (c) every sampler call / trace entry of seeded chains; "
                "distinct_nontrivial = distinct ADT states + sampler configurations with > 1 start state + chain configurations")
@@ -136,6 +142,10 @@ def selftest():
     ck = run(corrupt="inconsistent")
     ok = any(v["signature"].startswith("C07|inconsistent") for v in ck.violations)
     print("selftest:", "injected inconsistency reported" if ok else "FAILED")
+    ck2 = run(corrupt="moves")
+    ok2 = any("dp_move:result_is_not_a_candidate" in x[2] for x in ck2.extra.get("trace_moves_rejections", []))
+    print("selftest:", "altered recorded reassignment rejected by TraceMoves.tla" if ok2 else "FAILED (TraceMoves)")
+    ok = ok and ok2
     return 0 if ok else 1
 
 
